@@ -25,6 +25,17 @@ func (p *Prog) upChan(s *Sym, depth int) *Sym {
 	if _, isChan := par.Type().Underlying().(*types.Chan); !isChan {
 		return s
 	}
+	return p.upParam(s, depth)
+}
+
+// upParam resolves a parameter of a private function through its call sites when they all pass
+// the same thing (a flag or channel handed to a helper: prepareItem(item, dsc.opts.NoCopy)).
+func (p *Prog) upParam(s *Sym, depth int) *Sym {
+	s0 := s.StripConv()
+	par, ok := s0.V.(*ssa.Parameter)
+	if !ok || s0.Op != "param" || depth > 3 {
+		return s
+	}
 	fn := par.Parent()
 	if obj, _ := fn.Object().(*types.Func); obj != nil && obj.Exported() {
 		return s
@@ -39,7 +50,7 @@ func (p *Prog) upChan(s *Sym, depth int) *Sym {
 		if idx < 0 || idx >= len(args) {
 			return s
 		}
-		a := p.upChan(p.Sym(args[idx]), depth+1)
+		a := p.upParam(p.Sym(args[idx]), depth+1)
 		if found != nil && found.String() != a.String() {
 			return s
 		}
